@@ -277,6 +277,21 @@ def rule_pair(fx, rep):
                     for (wb, widx, adt, fld, kind, place) in b.field_writes():
                         if adt == gh.GAME and fld in HASHED and (wb in after or (wb == bb and widx is not None and widx > j)):
                             good, why = False, f"Game.{fld} is written directly after the key was computed from scratch: the carried key no longer describes the position"
+                if good and not wn.endswith("from_state"):
+                    # the restored key is final: no call that toggles the key (Game::set_at / remove_at, try_remove_castle_rights, the
+                    # toggle methods) may run after the restore - the take-back edits the board directly (seed C03-7a: the castling
+                    # rook put back through the Game helpers after the saved key had been reinstalled)
+                    after = b.reachable(bb)
+                    for cb_, ct_ in b.calls():
+                        tb_ = fx.body(callee_name(ct_)) if callee_name(ct_) else None
+                        if tb_ is None or tb_ is b or cb_ not in after:
+                            continue
+                        if cb_ == bb:
+                            pass  # the call terminates the block of the restoring statement: it runs after it
+                        touches = ("zobrist" in gh.game_fields_written(fx, tb_) and any("pl" in a_ and "Game" in (b.local_ty(a_["pl"]["l"]) or "") for a_ in ct_["args"])) or \
+                            any(norm(tb_.name).endswith(tg_) for tg_ in TOGGLES)
+                        if touches:
+                            good, why = False, f"`{norm(tb_.name)}` (which toggles the key) is called after the saved key has been restored: the identical position then carries a different key"
         rep.obligation(good)
         if not good:
             bad(f"wholesale/{wn}", f"`{b.name}`: {why}", b)
@@ -722,6 +737,8 @@ def rule_init(fx, rep):
 G = "src/chess/game.rs"
 Z = "src/chess/zobrist.rs"
 MUTANTS = [
+    {"name": "take-back of castling moves the rook through the Game helpers after the key was restored (seed C03-7a)", "expect": "C03-PAIR/wholesale/Game::undo_move",
+     "edits": [(G, "                self.board.remove_at(rook_to);\n                self.board\n                    .set_at(rook_from, Piece::new(player, PieceKind::Rook));", "                let rook = self.remove_at(rook_to);\n                self.set_at(rook_from, rook);")]},
     {"name": "benign: set_en_passant returns early when the target does not change", "benign": True,
      "edits": [("src/chess/zobrist.rs", "        self.0 ^= en_passant(previous_square);\n        self.0 ^= en_passant(square);", "        if previous_square == square {\n            return;\n        }\n        self.0 ^= en_passant(previous_square);\n        self.0 ^= en_passant(square);")]},
     {"name": "set_en_passant skips when both targets are present (seed C03-4a)", "expect": "C03-TOGGLE/set_en_passant",
